@@ -8,10 +8,10 @@ package model
 //
 //   Schedule  accepts the longest prefix that is contiguous in number from `from` and linked by
 //             parent hash to the last scheduled header (output = number inserted, must be equal).
-//   Reserve   may hand the peer ANY set of distinct queued headers, at most `count`, and nothing
-//             if the peer already owns a request. (No policy — order, throttling, lacking sets —
-//             is demanded.) An error is never allowed on a valid chain.
-//   Deliver   with no request owned: nothing accepted, "no fetches pending". Otherwise at most the
+//   Reserve   may hand the peer ANY set of distinct queued headers, and nothing if the peer already
+//             owns a request. (No policy — order, batch size, throttling, lacking sets — is
+//             demanded.) An error is never allowed on a valid chain.
+//   Deliver   with no request owned: nothing accepted. Otherwise at most the
 //             longest prefix of the response whose bodies match the requested headers is accepted
 //             (never a body that does not match); accepted ones become done, all others return to
 //             queued; the request is gone. "invalid chain" is never allowed.
@@ -208,9 +208,6 @@ func C18Step(ch *C18Chain, s *C18State, in *C18In, out *C18Out) (ok bool, why st
 		if len(out.IDs) > 0 && n.Pend[in.Peer] != nil {
 			return fail("reserve-double-request", "peer %d already owns a request (%v) and was given another (%v)", in.Peer, n.Pend[in.Peer], out.IDs)
 		}
-		if len(out.IDs) > in.Count {
-			return fail("reserve-over-count", "handed out %d headers, at most %d asked", len(out.IDs), in.Count)
-		}
 		for _, id := range out.IDs {
 			if id < 0 || id >= len(n.Status) {
 				return fail("reserve-unknown-header", "handed out an unknown header %d", id)
@@ -223,22 +220,10 @@ func C18Step(ch *C18Chain, s *C18State, in *C18In, out *C18Out) (ok bool, why st
 		if len(out.IDs) > 0 {
 			n.Pend[in.Peer] = append([]int(nil), out.IDs...)
 		}
-		if out.Progress {
-			any := false
-			for id := n.Released; id < len(n.Status); id++ {
-				if ch.Empty[id] && n.Status[id] == c18Queued {
-					any = true
-					break
-				}
-			}
-			if !any {
-				return fail("reserve-progress-bogus", "reports progress on empty blocks but no empty block is queued")
-			}
-		}
 	case C18Deliver:
 		req := n.Pend[in.Peer]
 		if req == nil {
-			if out.N != 0 || out.Err != "no-fetches-pending" {
+			if out.N != 0 {
 				return fail("deliver-unsolicited-accepted", "peer %d owns no request but delivery gave (accepted=%d, err=%q)", in.Peer, out.N, out.Err)
 			}
 			break
